@@ -382,44 +382,59 @@ def drivers():
 # --------------------------------------------------------------------------
 # part: id table
 # --------------------------------------------------------------------------
+def single_game(n, g):
+    """
+    Decode game id ``g`` alone: (ok, observed rows, expected row).
+
+    Only the id -> (home, away) mapping is judged here (which *day* is used
+    is the business of the other parts): every non-empty day of the decoded
+    plan must be the documented pair, and there must be one. Paths: the
+    kernel on a one-day plan with int64 ids and with ids of the search
+    space's dtype; for even n also ``GameEncoding.decode`` (two rounds, where
+    every id belongs to the search space).
+    """
+    from moptipyapps.ttp.game_encoding import map_games
+    tab = G.game_table(n)
+    home, away = int(tab[g, 0]), int(tab[g, 1])
+    exp = [0] * n
+    exp[home] = away + 1
+    exp[away] = -(home + 1)
+    seen = []
+    ok = True
+    for dt in (np.int64, real_space(n, 2).dtype):
+        y = np.full((1, n), FILL, y_dtype(n))
+        map_games(np.array([g], dt), y)
+        seen.append(y[0].tolist())
+        ok = ok and seen[-1] == exp
+    if n % 2 == 0:
+        rows = [r for r in decode_real(n, 2, [g]).tolist() if any(r)]
+        seen += rows
+        ok = ok and len(rows) > 0 and all(r == exp for r in rows)
+    return ok, seen, exp
+
+
 def part_id_table(ctx, nontrivial):
     """Every game id alone through the real decoder == my ordered-pair row."""
-    from moptipyapps.ttp.game_encoding import map_games
     cnt = 0
     for n in range(2, N_MAX + 1):
         tab = G.game_table(n)
         if len({(int(a), int(b)) for a, b in tab}) != n * (n - 1):
             raise HarnessError("model table is not a bijection")
         for g in range(n * (n - 1)):
-            home, away = int(tab[g, 0]), int(tab[g, 1])
-            exp = np.zeros((n - 1, n), np.int64)
-            exp[0, home] = away + 1
-            exp[0, away] = -(home + 1)
-            y = np.full((n - 1, n), FILL, y_dtype(n))
-            map_games(np.array([g], np.int64), y)
-            cnt += 1
-            nontrivial.add((n, 0, exp.tobytes()))
-            ok = np.array_equal(y, exp)
-            if ok and n % 2 == 0:
-                # same game through the public API (two rounds: all ids
-                # belong to the search space)
-                y2 = decode_real(n, 2, [g])
-                ok = np.array_equal(y2[:n - 1], exp) \
-                    and not y2[n - 1:].any()
-                cnt += 1
+            ok, seen, exp = single_game(n, g)
+            cnt += 3 if n % 2 == 0 else 2
+            nontrivial.add((n, 0, bytes(np.array(exp, np.int8))))
             if not ok:
-                y2 = np.full((n - 1, n), FILL, y_dtype(n))
-                map_games(np.array([g], np.int64), y2)
-                if np.array_equal(y2, exp) and n % 2:
+                if single_game(n, g)[0]:
                     raise HarnessError("id-table failure not reproducible")
                 ctx.violation(
                     "decode|single game id is not the documented (home, "
                     "away) pair",
-                    f"n={n} game id {g} = (home {home + 1}, away {away + 1})"
-                    f" by the documentation, decoded alone gives first day "
-                    f"{y[0].tolist()} expected {exp[0].tolist()}",
-                    {"kind": "decode", "n": n, "rounds": 2, "x": [g],
-                     "fill": FILL})
+                    f"n={n} game id {g} = (home {int(tab[g, 0]) + 1}, away "
+                    f"{int(tab[g, 1]) + 1}) by the documentation, decoded "
+                    f"alone gives the non-empty days {seen} expected "
+                    f"{exp} in each",
+                    {"kind": "single", "n": n, "g": g})
                 break
     ctx.add("evaluations", cnt)
     ctx.add("traces_validated_against_impl", cnt)
@@ -1031,7 +1046,6 @@ def run(ctx: Ctx) -> None:
     part_search_space(ctx)
     part_public_trees(ctx, nontrivial)
     part_reuse(ctx)
-    part_full_family(ctx, nontrivial)
     outcome_classes = 0
     # complete trees through the compiled driver
     trees = [(2, r, 1) for r in range(2, R_MAX + 1)]
@@ -1062,6 +1076,7 @@ def run(ctx: Ctx) -> None:
         if ctx.too_many():
             break
         plan_bfs(ctx, n, rounds, depth, nontrivial)
+    part_full_family(ctx, nontrivial)
     ctx.cov["distinct_nontrivial"] = len(nontrivial) + outcome_classes
     ctx.cov["rule"] = (
         "per (n, rounds): every prefix of every permutation with repetition "
@@ -1104,6 +1119,11 @@ def replay(ctx: Ctx, rep: dict) -> bool:
         print(f"search space ({rep['n']}, {rep['rounds']}):",
               d if d else "satisfies the statement")
         return d is None
+    if kind == "single":
+        ok, seen, exp = single_game(rep["n"], rep["g"])
+        print(f"n={rep['n']} game {rep['g']}: observed days {seen} "
+              f"expected {exp}")
+        return ok
     if kind == "reuse":
         ok, y, ym = replay_reuse(rep["n"], rep["rounds"], rep["first"],
                                  rep["second"])
